@@ -731,7 +731,7 @@ class Interp:
             ff = ff.parent
         if f is not None and f.name == "<module>" and f.cls is not None:
             ca = f.cls.lookup_class_attr(name)  # a class-level initialiser referring to another class attribute
-            if ca is not None:
+            if ca is not None and ca[0] is not f.node and not any(x is f.node for x in ast.walk(ca[0])):
                 return self.eval_in_module(ca[0], ca[1], node, cls=ca[2])
         if mod is not None:
             ent = self.ix.resolve_name(name, mod)
@@ -1408,6 +1408,10 @@ class Interp:
         return self.bind(self.eval(e.func, st), with_callee)
 
     def call(self, fv: V, args: list, kwargs: dict, st: State, node) -> list[Out]:
+        if isinstance(fv, _PartialV):
+            kw = dict(fv.kwargs)
+            kw.update(kwargs)
+            return self.call(fv.fn, list(fv.args) + list(args), kw, st, node)
         if isinstance(fv, FuncV):
             a = ([fv.self_obj] if fv.self_obj is not None else []) + list(args)
             return self.call_function(fv.func, a, kwargs, st, node, closure=fv.closure)
@@ -1519,6 +1523,8 @@ class Interp:
     # external / builtin summaries
     def call_external(self, name: str, args, kwargs, st: State, node) -> list[Out]:
         short = name.split(".")[-1]
+        if name in ("functools.partial", "partial") and args:
+            return self.val(st, _PartialV(args[0], args[1:], kwargs))
         if name in ("operator.mul", "operator.add", "operator.sub", "_operator.mul") and len(args) == 2:
             op = {"mul": ast.Mult(), "add": ast.Add(), "sub": ast.Sub()}[short]
             return self.binop(args[0], op, args[1], st, node)
@@ -2375,6 +2381,16 @@ class Interp:
 
     def s_Continue(self, s, st):
         return [Out("continue", st)]
+
+
+class _PartialV(V):
+    """functools.partial(fn, *args, **kwargs)"""
+
+    def __init__(self, fn, args, kwargs):
+        self.fn, self.args, self.kwargs = fn, list(args), dict(kwargs)
+
+    def __repr__(self):
+        return f"Partial({self.fn!r})"
 
 
 class _BoundBuiltin(V):
